@@ -13,7 +13,8 @@ the keywords one `pandas.read_csv` call sees                  `Kw` (`header`: ab
    "infer" if names is None else None)`
 `_header_row(lines, firstrow, header, skip_blank_lines)`      `blanksAt`, `headerRowAux`, `headerRow` (after fix e673923: blank
                                                               lines are not counted, as in pandas)
-`header = b"" if header is None else parts[firstrow] + lt`    `headerBytes` (`none` = IndexError)
+`header = b"" if header is None or firstrow >= len(parts)     `headerBytes` (after fix 61520db: never IndexError)
+   else parts[firstrow] + lt`
 `head = reader(BytesIO(b_sample), …)`                         `pdFrame u sample` (its `cols` are the columns of `meta`)
 `b_sample` (`read_bytes(sample=…)`), sample-size rule,        `sampleSize`, `TextBlocks.sampleOf`, `need`, `sampleTooSmall`
    "Sample is not large enough"
@@ -102,10 +103,15 @@ def headerRowAux (lines : List (List Nat)) : Nat → Nat → Nat
 def headerRow (lines : List (List Nat)) (firstrow header : Nat) : Nat :=
   if headerRowAux lines header firstrow < lines.length then headerRowAux lines header firstrow else firstrow + header
 
+/-- `header = b"" if header is None or firstrow >= len(parts) else parts[firstrow] + lt` (after fix 61520db the row
+    beyond the sample no longer raises IndexError; the `Option` is kept for the callers, the value is always `some`) -/
 def headerBytes (u : Kw) (sample : List Nat) : Option (List Nat) :=
   match effHeader u with
   | .none => some []
-  | _ => ((pySplitAux NL 0 [] sample)[headerRow (pySplitAux NL 0 [] sample) u.skiprows (headerInt u)]?).map (· ++ NL)
+  | _ =>
+    match (pySplitAux NL 0 [] sample)[headerRow (pySplitAux NL 0 [] sample) u.skiprows (headerInt u)]? with
+    | some p => some (p ++ NL)
+    | none => some []
 
 def firstKw (u : Kw) : Kw := { u with header := some (effHeader u) }
 
